@@ -698,7 +698,9 @@ func subWriteSide() mon.Sub {
 			sz := sizes[c.I/len(apis)%len(sizes)]
 			orig := make([]byte, sz)
 			c.Rng.Read(orig)
-			p := append([]byte(nil), orig...)
+			// (the caller's slice is a view into a larger buffer of its own: what lies in front of it and behind it -
+			// its spare capacity - is the caller's memory as well)
+			p, _, neighbours := xport.Arena3(orig)
 			wt := &watch{p: p, want: append([]byte(nil), orig...)}
 			dst := &keepDst{w: wt, failAt: -1}
 			failing := c.I/len(apis)/len(sizes) == 2 && !strings.HasPrefix(api, "MaskFrame") && api != "UnmaskFrame"
@@ -811,6 +813,10 @@ func subWriteSide() mon.Sub {
 				}
 				det["frame_key"] = fmt.Sprintf("%x", uk)
 				out = ws.UnmaskFrame(f)
+			}
+			if w := neighbours(); w != "" {
+				c.Fail("mutates-caller-buffer/"+api, api+": "+w, det)
+				return
 			}
 			if wt.bad > 0 {
 				det["first_changed_byte"] = wt.badAt
